@@ -40,7 +40,8 @@ def rules_json(parser, ph):
 
 def instrument(parser, log, log_reset):
     """wrap the callbacks of an LALR Lark instance in place; returns the list of rules in index order"""
-    cbs = parser.parser.parser.parser.callbacks
+    inner = parser.parser.parser
+    cbs = inner.parser.callbacks if hasattr(inner, 'parser') else inner.callbacks        # LALR_Parser._Parser / earley.Parser
     rules = list(parser.rules)
     idx = {r: i + 1 for i, r in enumerate(rules)}
 
@@ -80,11 +81,15 @@ def observe_case(spec):
     from lark import Lark
     from lark.exceptions import UnexpectedInput
     G, ka, ph, pp = spec['G'], spec['ka'], spec['ph'], spec['pp']
+    amb = bool(spec.get('amb'))
     gtext = E.grammar_text(G)
-    case = {'gtext': gtext, 'ka': ka, 'ph': ph, 'pp': pp, 'reds': [], 'skip': '', 'spec': spec, 'texts': []}
+    case = {'gtext': gtext, 'ka': ka, 'ph': ph, 'pp': pp, 'amb': amb, 'reds': [], 'skip': '', 'spec': spec, 'texts': []}
     try:
         with O.budget(30):
-            p = Lark(gtext, parser='lalr', lexer=spec.get('lexer', 'contextual'), keep_all_tokens=ka, maybe_placeholders=ph, propagate_positions=pp)
+            if amb:
+                p = Lark(gtext, parser='earley', lexer=spec.get('elexer', 'basic'), ambiguity='explicit', keep_all_tokens=ka, maybe_placeholders=ph, propagate_positions=pp)
+            else:
+                p = Lark(gtext, parser='lalr', lexer=spec.get('lexer', 'contextual'), keep_all_tokens=ka, maybe_placeholders=ph, propagate_positions=pp)
     except Exception as ex:
         case['skip'] = type(ex).__name__
         return case
@@ -126,7 +131,7 @@ def judge(pid, cases, ev, rep, tmp, name):
     jobs = []
     for off in range(0, len(cases), CH):
         chunk = cases[off:off + CH]
-        jobs.append((chunk, C.write_batch({'cases': [{'rules': c['rules'], 'pp': c['pp'], 'reds': c['reds']} for c in chunk]}, tmp, 'tb_%s_%d.json' % (name, off))))
+        jobs.append((chunk, C.write_batch({'cases': [{'rules': c['rules'], 'pp': c['pp'], 'amb': bool(c.get('amb')), 'reds': c['reds']} for c in chunk]}, tmp, 'tb_%s_%d.json' % (name, off))))
     results = C.tlc_parallel('TraceBuilder', TRACE_CFG, [j[1] for j in jobs], continue_=True, timeout=3000)
     drift = []
     for (chunk, path), res in zip(jobs, results):
@@ -267,7 +272,7 @@ def selftest(cases, ev, tmp):
         raise C.MachineryFailure('builder self-test: no suitable reduction recorded')
     bad = []
     for n, (c, k) in enumerate(picked):
-        c2 = {'rules': c['rules'], 'pp': c['pp'], 'reds': copy.deepcopy(c['reds'][k:k + 1])}     # the one reduction, on its own
+        c2 = {'rules': c['rules'], 'pp': c['pp'], 'amb': False, 'reds': copy.deepcopy(c['reds'][k:k + 1])}     # the one reduction, on its own
         if n == 0:
             c2['reds'][0]['res'][2] = c2['reds'][0]['res'][2][:-1]
         else:
@@ -283,3 +288,31 @@ def selftest(cases, ev, tmp):
     ev.cov['binding_selftest']['builder_corrupted_reductions_rejected'] = got == want
     if got != want:
         raise C.MachineryFailure('builder self-test: corrupted reductions judged %s, expected %s' % (got, want))
+
+
+def phase_amb(pid, tier, rng, ev, rep, tmp, extra_specs=()):
+    """C04: the callbacks of Earley with ambiguity='explicit' (the chain with AmbiguousExpander and
+    AmbiguousIntermediateExpander) against CallbackAmb of TreeBuilder.tla; drifting cases are re-judged on their observable"""
+    sps = [dict(sp, amb=True, pp=False, elexer=rng.choice(['basic', 'dynamic'])) for sp in specs(C.scale(700 if tier == 'quick' else 7000), rng)]
+    for d in extra_specs:
+        sps.append({'G': d['G'], 'ka': False, 'ph': True, 'pp': False, 'amb': True, 'inputs': d['inputs'], 'elexer': 'basic'})
+    cases = [c for c in C.pmap(observe_case, sps) if not c['skip'] and c['reds']]
+    ev.count('builder_amb_grammars', len(cases))
+    ev.count('builder_amb_reductions', sum(len(c['reds']) for c in cases))
+    ev.count('builder_amb_reductions_returning__ambig', sum(1 for c in cases for e in c['reds'] if e['res'][1] == '_ambig'))
+    ev.count('builder_amb_reductions_with_an_ambiguous_intermediate_node', sum(1 for c in cases for e in c['reds'] if e['kids'] and e['kids'][0][1] == '_iambig'))
+    ev.cov['traces_validated_against_impl'] = ev.cov.get('traces_validated_against_impl', 0) + sum(len(c['reds']) for c in cases)
+    drift = judge(pid, cases, ev, rep, tmp, 'builder-amb')
+    if drift:
+        from . import c03
+        seen, out = set(), []
+        for d in drift:
+            sp = d['builder_spec']
+            key = json.dumps([d['grammar'], sp['inputs']], sort_keys=True)
+            if key not in seen and len(out) < 300:
+                seen.add(key)
+                out.append({'G': sp['G'], 'ka': sp['ka'], 'ph': sp['ph'], 'inputs': [tuple(w) for w in sp['inputs']], 'explicit': True, 'collapse': True,
+                            'only_explicit': True, 'family': 'F_ebnf(builder drift)'})
+        c03.judge(pid, [c for c in C.pmap(c03.observe_case, out) if not c['skip']], ev, rep, tmp, 'builder-amb-drift')
+    if ev.cov['counts'].get('builder_amb_reductions_returning__ambig', 0) < (300 if C.scale(100) == 100 else 1):
+        raise C.MachineryFailure('vacuity (ambiguous builder): %s' % ev.cov['counts'])
